@@ -2,11 +2,11 @@ package main
 
 import (
 	"bytes"
-	"regexp"
 	"encoding/json"
 	"fmt"
 	"os"
 	"path/filepath"
+	"regexp"
 	"runtime"
 	"strings"
 	"sync"
